@@ -4,7 +4,7 @@ import regexcommon as rc
 
 LEVEL = "model_checking"
 ROUTES = ["nfa0", "ast"]
-FAMS = ["F1", "F2", "F3", "F4", "F5", "F6", "F7", "F8", "F10"]
+FAMS = ["F1", "F2", "F3", "F4", "F5", "F6", "F7", "F8", "F10", "F13"]
 
 
 def run(ck):
